@@ -323,11 +323,12 @@ class Angle(object):
                     raise TypeError("Invalid input value")
                 elif len(deg) == 1:
                     # This is a single value
+                    deg = deg[0]  # Do not write into the caller's sequence
                     if "radians" in kwargs:
                         if kwargs["radians"]:
                             # Input value is in radians. Convert to degrees
-                            deg[0] = degrees(deg[0])
-                    self._deg = Angle.reduce_deg(deg[0])
+                            deg = degrees(deg)
+                    self._deg = Angle.reduce_deg(deg)
                     return
                 elif len(deg) == 2:
                     # Seconds value is set to zero
